@@ -2,7 +2,8 @@
 
 It is a *mirror*, not the definition: the check cross-validates it against the Coq evaluation of
 `rq_diags` on every program evaluated in Coq (same diagnostics, same order).  Diagnostics:
-  ("DDupCid", c) ("DDupTid", t) ("DUndefined", w, site, c) ("DNotVisible", w, site, c) ("DTidUndeclared", w, t)
+  ("DDupCid", c) ("DDupTid", t) ("DUndefined", w, site, c) ("DNotVisible", w, site, c) ("DForeign", w, site, c)
+  ("DTidUndeclared", w, t)
   ("DNoFrom", w) ("DNoSelect", w) ("DArity", w, n, m)        w = position in the table list (main = len)
   site = where in a transform the id is used: SCompute SWinFrame SWinPartition SWinSort SSelect SFilter
          SAggPartition SAggCompute SSort STakeRange STakePartition STakeSort SJoinFilter SRelArg
@@ -80,10 +81,17 @@ def dups(xs):
 
 
 def check_uses(defs, w, vis, site, cs):
+    """defs = (all definitions of the query, definitions inside the relation being checked)"""
+    alld, ldefs = defs
     out = []
     for c in cs:
         if c not in vis:
-            out.append(("DNotVisible", w, site, c) if c in defs else ("DUndefined", w, site, c))
+            if c not in alld:
+                out.append(("DUndefined", w, site, c))
+            elif c in ldefs:
+                out.append(("DNotVisible", w, site, c))
+            else:
+                out.append(("DForeign", w, site, c))
     return out
 
 
@@ -136,8 +144,9 @@ def pipeline_diags(defs, decl, w, vis, p):
     return out, vis
 
 
-def relation_diags(defs, decl, w, r):
+def relation_diags(alld, decl, w, r):
     k, cols = r[1], r[2]
+    defs = (alld, relation_defs(r))
     if k[0] == "KPipeline":
         p = k[1]
         out, _ = pipeline_diags(defs, decl, w, [], p)
@@ -179,7 +188,8 @@ def rq_wf(q):
 
 
 def lax_diag(d):
-    """the one relaxation: a carried sort (Take.sort / Window.sort) naming a column that is defined but not visible"""
+    """the one relaxation: a carried sort (Take.sort / Window.sort) naming a column that is defined in the same
+    relation but not visible (DForeign -- defined only in another relation -- is not tolerated)"""
     return d[0] == "DNotVisible" and d[2] in ("STakeSort", "SWinSort")
 
 
